@@ -419,12 +419,16 @@ class Program:
         self.const_expanded = constinline.run(d)
         self.inlined = inline.run(d)
         self.loop_idioms = loopidiom.run(d)
+        from . import exits
+        self.exits_threaded = exits.run(d, cfg)
         self.fns = [Fn(self, f) for f in d["fns"]]
         self.by_path = {}
         for f in self.fns:
             self.by_path.setdefault(f.path, []).append(f)
         self.param_renames = []
         self._canon_params()
+        from . import orient
+        self.reoriented = orient.run(self)
         self.adts = {a["path"]: a for a in d["adts"]}
         self.consts = {}
         for c in d["consts"]:
